@@ -288,7 +288,7 @@ def run_core(pid, cfg, ctx, eager_only=False):
         ctx.notes.append(f"skipped {cfg['design']}: {s}")
         ctx.skipped = True
         return
-    if pid in ("C01", "C04", "C07", "C08"):
+    if pid in ("C01", "C02", "C04", "C07", "C08"):
         from contracts.mgrfn import manager_contracts
 
         manager_contracts(pid, ctx, b, o)
